@@ -24,7 +24,8 @@ RULE = ('the same seeded case list (a decoded WF-T graph g and a hand-built shuf
         'case, AMR and default models) executed in 6 worker interpreters: PYTHONHASHSEED in '
         '{0, 1, 7, 123, random} plus one run with shuffled operation order and one with the cases in '
         'reverse order (another interleaving of models and graphs in one process); 24 operations per case '
-        '(encode from every top, reconfigure with sorted keys, every transformation and pairs, |, -, '
+        '(a quarter of the AMR cases write relations twice, directly and as a collapsible reified node; '
+        'encode from every top, reconfigure with sorted keys, every transformation and pairs, |, -, '
         'errors on multi-component graphs, diagnostics, alignments, format, queries); offline join of '
         'the event logs on (case, op); graphs decoded and pickled in a child under another hash seed '
         'and used in the parent (POP identity scenario); `python -m penman` bytes under two hash '
